@@ -264,7 +264,7 @@ def batch(sim_cls, tier: str, base_seed: int, runs: int = None, workers: int = N
     zero = [p for p in sim_cls.PROBES if probes.get(p, 0) == 0]
     print("  probes: %s%s" % (dict(probes), ("  ZERO: %s" % zero) if zero else ""))
     for k in known:
-        print("KNOWN-FINDING: property=%s %s [%s; hit in %d runs]" % (prop, k["what"], k["id"], known_hits.get(k["id"], 0)))
+        print("KNOWN-FINDING: property=%s %s [%s in known_findings.json; hit in %d runs]" % (prop, k["what"][:230], k["id"], known_hits.get(k["id"], 0)))
     if harness_errors:
         print("HARNESS-ERROR (no verdict):")
         for h in harness_errors[:5]:
